@@ -1081,3 +1081,72 @@ Definition g_period_windows_dt {DT : Type} {TD : Type} (fuel : nat) (p_fromtimes
     | Metrics.PFull =>
       (RDone [(start_dt, start_ts, end_ts)])
     end.
+
+(* calgebra/gcsa.py: _infer_is_all_day *)
+Definition g_gcsa_infer_is_all_day {TZ : Type} {DT : Type} {TIME : Type} {TD : Type} (tz_utc : TZ) (dt_fromtimestamp : Z -> TZ -> DT) (dt_time : DT -> TIME) (time_min : TIME) (time_neb : TIME -> TIME -> bool) (td_of_seconds : Z -> TD) (td_of_days : Z -> TD) (td_of_hours : Z -> TD) (td_days : TD -> Z) (td_sub : TD -> TD -> TD) (td_gtb : TD -> TD -> bool) (start_ts : Z) (end_ts : Z) (calendar_tz : option TZ) : bool :=
+  let tz := (match calendar_tz with Some calendar_tz => calendar_tz | None => tz_utc end) in
+  let start_dt := (dt_fromtimestamp start_ts tz) in
+  let end_dt := (dt_fromtimestamp end_ts tz) in
+  if ((time_neb (dt_time start_dt) time_min) || (time_neb (dt_time end_dt) time_min)) then
+    false
+  else
+    let duration := (td_of_seconds (end_ts - start_ts)) in
+    let days := (td_days duration) in
+    let remainder := (td_sub duration (td_of_days days)) in
+    if (td_gtb remainder (td_of_hours 1)) then
+      false
+    else
+      true.
+
+(* calgebra/gcsa.py: Calendar._fetch_reverse *)
+Definition g_gcsa_fetch_reverse {EV : Type} (fuel : nat) (fetch_forward : option Z -> option Z -> list EV) (ev_start : EV -> Z) (start : option Z) (end_ : option Z) : res (list EV) :=
+  match end_ with
+  | Some end_ =>
+    let start :=
+      match start with
+      | Some start =>
+        start
+      | None =>
+        let start := (end_ - (365 * 86400)) in
+        start
+      end in
+    let window_size := (30 * 86400) in
+    let current_end := end_ in
+    run_while fuel
+      (fun current_end => (current_end >? start))
+      (fun current_end =>
+        let out := @nil EV in
+        let window_start := (Z.max start (current_end - window_size)) in
+        let fetch_from := (if (window_start =? start) then window_start else (window_start - 1)) in
+        let window_events := (filter (fun ev => ((((ev_start ev) <? current_end) || (current_end =? end_)) && (((ev_start ev) >=? window_start) || (window_start =? start)))) (fetch_forward (Some fetch_from) (Some current_end))) in
+        let out := out ++ (rev window_events) in
+        let current_end := window_start in
+        (out, current_end, Cont))
+      (fun current_end =>
+        let out := @nil EV in
+        out)
+      current_end
+  | None =>
+    (RRaise ValueError)
+  end.
+
+(* calgebra/gcsa.py: _timestamp_to_datetime *)
+Definition g_gcsa_ts_to_dt {TZ : Type} {DT : Type} (tz_utc : TZ) (dt_fromtimestamp : Z -> TZ -> DT) (ts : Z) : DT :=
+  (dt_fromtimestamp ts tz_utc).
+
+(* calgebra/gcsa.py: _format_exdate *)
+Definition g_gcsa_format_exdate {TZ : Type} {DT : Type} {EXD : Type} (tz_utc : TZ) (dt_fromtimestamp : Z -> TZ -> DT) (dt_strftime_exdate : DT -> EXD) (timestamp : Z) : EXD :=
+  let dt := (g_gcsa_ts_to_dt tz_utc dt_fromtimestamp timestamp) in
+  (dt_strftime_exdate dt).
+
+(* calgebra/gcsa.py: _add_exdate_to_rrule *)
+Definition g_gcsa_add_exdate_to_rrule {RR : Type} {EXD : Type} {PART : Type} (parse_exdates_from_rrule : RR -> RR * list EXD) (exd_eqb : EXD -> EXD -> bool) (mk_exdate_part : list EXD -> PART) (rr_snoc : RR -> PART -> RR) (rrule_str : RR) (exdate_str : EXD) : RR :=
+  let '(base_rrule, existing_exdates) := (parse_exdates_from_rrule rrule_str) in
+  let existing_exdates :=
+    if (negb (existsb (exd_eqb exdate_str) existing_exdates)) then
+      let existing_exdates := (existing_exdates ++ [exdate_str]) in
+      existing_exdates
+    else
+      existing_exdates in
+  let exdate_part := (mk_exdate_part existing_exdates) in
+  (rr_snoc base_rrule exdate_part).
